@@ -221,7 +221,12 @@ class GaussianPSF(Fittable2DModel):
         """
         a = factor * self.x_sigma
         b = factor * self.y_sigma
-        dx, dy = ellipse_extent(a, b, self.theta)
+        # a unitless theta is in degrees (see evaluate), while
+        # ellipse_extent takes a unitless angle in radians
+        theta = self.theta
+        if theta.unit is None:
+            theta = np.deg2rad(theta.value)
+        dx, dy = ellipse_extent(a, b, theta)
         return ((self.y_0 - dy, self.y_0 + dy), (self.x_0 - dx, self.x_0 + dx))
 
     @property
@@ -884,7 +889,12 @@ class GaussianPRF(Fittable2DModel):
         """
         a = factor * self.x_sigma
         b = factor * self.y_sigma
-        dx, dy = ellipse_extent(a, b, self.theta)
+        # a unitless theta is in degrees (see evaluate), while
+        # ellipse_extent takes a unitless angle in radians
+        theta = self.theta
+        if theta.unit is None:
+            theta = np.deg2rad(theta.value)
+        dx, dy = ellipse_extent(a, b, theta)
         return ((self.y_0 - dy, self.y_0 + dy), (self.x_0 - dx, self.x_0 + dx))
 
     @property
